@@ -74,6 +74,7 @@ type Exec struct {
 	depth     int
 	stubs     map[string]FuncV
 	jsonTok   map[*Term]*JNode
+	jsonEsc   map[*Term]*Term // escaped copy (quotes backslashed) -> original token
 	pcCount   int
 	declared  map[string]bool
 	observes  []observeRec
@@ -733,7 +734,18 @@ func (ex *Exec) unop(fr *frame, x *ssa.UnOp) Value {
 func (ex *Exec) valEq(a, b Value) *Term {
 	switch x := a.(type) {
 	case *Term:
-		return mkEq(x, b.(*Term))
+		y := b.(*Term)
+		if x.sort == SStr && len(ex.jsonTok) > 0 {
+			na, oka := ex.jsonTok[x]
+			nb, okb := ex.jsonTok[y]
+			if oka && okb {
+				return ex.jnodeEq(na, nb)
+			}
+			if (oka && y.op == "c" && len(y.s) < 2) || (okb && x.op == "c" && len(x.s) < 2) {
+				return tFalse
+			}
+		}
+		return mkEq(x, y)
 	case FloatV:
 		return mkBool(x.f == b.(FloatV).f)
 	case PtrV:
@@ -1199,7 +1211,7 @@ func (ex *Exec) lookup(fr *frame, x *ssa.Lookup) Value {
 	found := false
 	if m.m != nil {
 		// scalar-valued maps with symbolic keys: build an ite chain instead of forking
-		if kt, ok := key.(*Term); ok && !allConstKeys(m.m, kt) && scalarVals(m.m) && len(m.m.keys) > 0 {
+		if kt, ok := key.(*Term); ok && !allConstKeys(m.m, kt) && scalarVals(m.m) && len(m.m.keys) > 0 && !ex.anyToken(m.m.vals) {
 			var rv *Term = asTerm(ex.zero(mt.Elem()))
 			okT := tFalse
 			for i := len(m.m.keys) - 1; i >= 0; i-- {
@@ -1772,4 +1784,21 @@ func (ex *Exec) lookupMethod(t types.Type, pkg *types.Package, name string) *ssa
 		return nil
 	}
 	return ex.prog.MethodValue(sel)
+}
+
+func (ex *Exec) anyToken(vals []Value) bool {
+	if len(ex.jsonTok) == 0 && len(ex.jsonEsc) == 0 {
+		return false
+	}
+	for _, v := range vals {
+		if t, ok := v.(*Term); ok {
+			if _, ok := ex.jsonTok[t]; ok {
+				return true
+			}
+			if _, ok := ex.jsonEsc[t]; ok {
+				return true
+			}
+		}
+	}
+	return false
 }
